@@ -47,7 +47,17 @@ MANIFEST = dict(
           "in_base(system), in_base(), in_mks()/in_cgs(), convert_to_base(system), convert_to_mks()/convert_to_cgs(); mixed-unit ufuncs "
           "over E&M, compound, derived, dimensionless and temperature-difference pairs) against exact rational factors written in the "
           "harness; for the offset family the scales AND offsets of two harness temperature units are z3 reals and z3 proves the affine "
-          "image for all of them. Converted values as IEEE numbers are not claimed."),
+          "image for all of them. (e) Two further conversion routes that are handed the raw (integer) data before any float type is chosen: "
+          "every registered equivalence in EVERY DIRECTION of its dimension table (34 direction rows over the 9 equivalences, incl. keyword "
+          "arguments mu/gamma; a registered equivalence without rows is an error) x 8 call forms (to with the equivalence positional and by "
+          "keyword, in_units, to_value, to_equivalent, convert_to_units positional/keyword, convert_to_equivalent) x array/scalar x dtype, "
+          "against the physical formulas and constants written in the harness, with values whose images are fractional and - where the "
+          "direction takes a power of the data - values whose power leaves the integer type; for the directions that are one multiply or "
+          "divide the target unit (and for the constant-free reciprocal directions also the source unit) is a harness unit whose scale is "
+          "a z3 real and z3 proves the image for ALL scales; and python SEQUENCES of quantities in different commensurable units (list / "
+          "tuple, of quantities / of arrays) as first or second operand of a binary ufunc, of the +,-,< operators, or as the constructor's "
+          "argument (10 container forms x 3 unit families x dtype), with the two unit scales of the elements as z3 reals for the length "
+          "family. Converted values as IEEE numbers are not claimed."),
     design="DESIGN.md section 4 C17",
     technique="SMT (bit-vectors + floating point) threshold queries built from the source AST; symbolic execution of the real Python "
               "code over typed arrays with z3-real unit scales; concrete enumeration of the dtype x route map and of two- and three-call "
@@ -89,7 +99,22 @@ EXPLANATION = (
     "C17/binary-units cases do the same for mixed-unit add/subtract/less/maximum, including the temperature branch in which the FIRST "
     "operand is rescaled (difference + point). The runner's history axis (warm variants) is effective for C17: a path is put into the "
     "fresh-library state once, before the first function it runs, so a predecessor case's state is met by the case under test; "
-    "WARM_PARTNERS forces, for the unit-family cases, the same form and family on another dtype as predecessor."
+    "WARM_PARTNERS forces, for the unit-family cases, the same form and family on another dtype as predecessor. (e) C17/equivalence/<name>/"
+    "<direction>/<dtype>: one row of EQ_ROWS (equivalence, source dimension -> target dimension, a source and a target table unit, the image "
+    "of a held number as a python formula over constants written in the harness, keyword arguments) through all 8 call forms on an array "
+    "and on a quantity; obligations as for the plain routes (succeeds - in-place forms may raise for 1-byte integers only -, floating kind, "
+    "float of the item size [known finding for the copy forms], values within 2e-3 or 16 ulp of the image - a non-finite number in a float "
+    "narrower than 8 bytes and a zero in a 2-byte float are IEEE range effects of the constants h, k_B, c**2 and are excused -, target unit, "
+    "input untouched, the copy forms agree with each other, copy and in-place forms agree on dtype [known finding] and values), plus, for "
+    "directions that square or raise the data (sound_speed from velocities, effective_temperature to flux, lorentz from gamma), two values "
+    "whose power exceeds the integer type under a label of their own (known finding for sound_speed). Symbolic pass (real dtypes, forms to "
+    "and to_equivalent): target harness unit xb of scale s_b, source harness unit xa of scale s_a for length<->spatial_frequency or the "
+    "row's table unit otherwise; z3 proves r*s_b == f_SI(v*s_a). C17/sequence/<op>/<form>/<family>/<dtype>: three elements (1 of the first "
+    "unit, 500 and 250 - 50 and 25 for 1-byte types - of the second: converted values 0.5 and 0.25) of one dtype as list/tuple of "
+    "quantities or of 2-element arrays, combined with an array [2,2,2] of the same dtype in the first unit through np.<op>(seq, arr), "
+    "np.<op>(arr, seq), arr <op> seq, seq <op> arr, or handed to unyt_array(seq): result floating and not narrower than the float of the "
+    "elements' item size (constructor: exactly that float), exact rational values, first operand's unit, elements untouched; symbolic "
+    "pass on harness units xa, xb, xb: z3 proves result*s_a == v*s + (+-)2*s_a for all scales."
 )
 BOUNDS = {
     "quick": "(a) 8 integer dtypes x routes {in_units, to, to_value, convert_to_units, in_base, convert_to_base}: every value of the "
@@ -116,7 +141,10 @@ BOUNDS = {
              "int32-swapped}; 7 integer/float values per array incl. the dtype maximum and 2**p+1; offset family: two scales > 0 "
              "(differing by > 0.1%) and two non-zero offsets as z3 reals for the copy forms; binary unit families: add x 8 unit pairs x "
              "(11 real dtypes + 3 variants + 5 mixed pairs), less x 5 pairs x 6; warm variants: 90 sampled, up to half of them forced "
-             "unit-family pairs",
+             "unit-family pairs; (e) equivalences: all 34 direction rows x 8 forms x array/scalar x 9 dtypes {int8, uint16, int32, int64, uint64, "
+             "float16, float32, complex64, longlong}, 4 values (+2 power-overflow values), symbolic unit scales for 16 multiply/divide "
+             "directions; sequences: list/tuple as first/second ufunc operand with add (list forms: also less), operator forms with add, "
+             "three constructor forms, list-of-arrays operand; 3 unit families for the list and constructor-list forms, length otherwise; 9 dtypes",
     "thorough": "(a) same; (b) same routes/equivalences/out= cases; mixed-unit ufuncs {add, subtract, maximum, minimum, remainder, hypot, "
                 "arctan2, floor_divide, less, greater_equal, equal, not_equal} x real dtype pairs {same dtype, float64/int64/float16 "
                 "first}, all 11x11 real pairs for add/subtract; {add, subtract, equal, not_equal} x complex64/128 paired with every dtype "
@@ -127,9 +155,16 @@ BOUNDS = {
                 "histories; the full 7x7x169 product was cut for wall time); (d) as quick, with all 26 dtype names for the unit-family cases, "
                 "ufuncs x the variants in both positions, to->to histories of every variant with all 13 canonical dtypes, 9 identity pairs "
                 "in the 7x7 site product, binary unit families {add, subtract, less, maximum} x all real dtypes and variants; all forced "
-                "warm pairs",
+                "warm pairs; (e) equivalence rows x all 26 dtype names; sequences: all 10 forms x {add, subtract, less, maximum, floor_divide} "
+                "x 3 unit families x 21 real dtype names",
 }
-OUTSIDE = ("the converted values as IEEE numbers (double rounding through astype + multiply) - only 'not truncated: within 8 ulp of the "
+OUTSIDE = ("(e): assignment of quantities into an existing integer buffer (a[i] = q, a[:] = [q1, q2], np.copyto, ndarray.fill, np.pad "
+           "constant_values: the destination keeps its integer dtype, NumPy's own store semantics) and the array functions that accept "
+           "operands in different units (np.diff prepend/append, np.histogram bins/range, np.var mean, np.isclose ...: see C06/C07) are not "
+           "walked; np.concatenate/stack/where/clip/append refuse mixed units; equivalence directions through powers and roots (lorentz, "
+           "sound_speed from/to velocities, effective_temperature) and complex data have no symbolic-scale pass (sqrt of a symbolic "
+           "scale) and are enumeration on table units; equivalence values in float16/float32 where the constants leave the type's range "
+           "are held to the dtype obligations only; the converted values as IEEE numbers (double rounding through astype + multiply) - only 'not truncated: within 8 ulp of the "
            "narrowest float the data passes through' is checked on concrete runs and exact real arithmetic (1e-6 band, widened to 8 ulp "
            "of that float) on symbolic ones (A1); overflow to inf counts as rounding, including the in-place route's first step that "
            "casts the integer itself to the float of its item size (uint16 65535 m -> inf km in place, 65.56 km by the copy route; "
@@ -938,6 +973,389 @@ def make_equiv_case(dt):
                             copy=str(data_of(rc.value).dtype), inplace=str(data_of(c).dtype), equivalence=name)
 
     return Case(f"C17/equivalence/{dt}", h, bounds="concrete: keV->K (thermal), km->Hz (spectral), values 1,2,3")
+
+
+# ----------------------------------------------------------------------------------------------- equivalence x direction x call form
+#
+# An equivalence is not one conversion but a table of DIRECTIONS (source dimension -> target dimension), each with its own line of
+# code (multiply, divide, reciprocal, power, root) that is handed the raw - possibly integer - data before any float type has been
+# chosen. Every registered equivalence is walked in every direction, through every call form that accepts an equivalence (copying
+# and in-place; equivalence named positionally and by keyword; array and scalar), for every dtype. The oracles are the physical
+# formulas written here with constants written here (CODATA values to 4+ digits: the band is 2e-3, truncation is a far larger error).
+
+C_LIGHT, H_PLANCK, K_BOLTZ, EV = 299792458.0, 6.62607e-34, 1.380649e-23, 1.602177e-19
+M_H, G_NEWTON, SIGMA_SB = 1.6737352e-27, 6.67408e-11, 5.670373e-8  # mass of the hydrogen atom (unyt's `mh`), G, Stefan-Boltzmann
+AMU, M_SUN, M_E = 1.660539e-27, 1.98841586e30, 9.1093836e-31
+MU, GAMMA = 0.6, 5.0 / 3.0  # defaults of number_density / sound_speed
+
+# (equivalence, direction, source unit, target unit, image of the held number v in the target unit, keyword arguments)
+EQ_ROWS = [
+    ("spectral", "length->rate", "km", "Hz", lambda v: C_LIGHT / (1e3 * v), {}),
+    ("spectral", "length->energy", "nm", "eV", lambda v: H_PLANCK * C_LIGHT / (1e-9 * v) / EV, {}),
+    ("spectral", "length->spatial_frequency", "m", "1/km", lambda v: 1e3 / v, {}),
+    ("spectral", "rate->length", "MHz", "m", lambda v: C_LIGHT / (1e6 * v), {}),
+    ("spectral", "rate->energy", "THz", "eV", lambda v: H_PLANCK * 1e12 * v / EV, {}),
+    ("spectral", "rate->spatial_frequency", "GHz", "1/m", lambda v: 1e9 * v / C_LIGHT, {}),
+    ("spectral", "energy->length", "eV", "nm", lambda v: H_PLANCK * C_LIGHT / (v * EV) * 1e9, {}),
+    ("spectral", "energy->rate", "eV", "THz", lambda v: v * EV / H_PLANCK / 1e12, {}),
+    ("spectral", "energy->spatial_frequency", "eV", "1/cm", lambda v: v * EV / (H_PLANCK * C_LIGHT) / 100, {}),
+    ("spectral", "spatial_frequency->length", "1/cm", "um", lambda v: 1e4 / v, {}),
+    ("spectral", "spatial_frequency->rate", "1/cm", "GHz", lambda v: 100 * v * C_LIGHT / 1e9, {}),
+    ("spectral", "spatial_frequency->energy", "1/cm", "eV", lambda v: 100 * v * H_PLANCK * C_LIGHT / EV, {}),
+    ("thermal", "energy->temperature", "keV", "K", lambda v: v * 1e3 * EV / K_BOLTZ, {}),
+    ("thermal", "temperature->energy", "MK", "keV", lambda v: v * 1e6 * K_BOLTZ / EV / 1e3, {}),
+    ("mass_energy", "mass->energy", "g", "erg", lambda v: v * 1e-3 * C_LIGHT ** 2 * 1e7, {}),
+    ("mass_energy", "energy->mass", "MeV", "amu", lambda v: v * 1e6 * EV / C_LIGHT ** 2 / AMU, {}),
+    ("number_density", "density->number_density", "g/cm**3", "cm**-3", lambda v: v / (MU * M_H * 1e3), {}),
+    ("number_density", "number_density->density", "cm**-3", "g/cm**3", lambda v: v * MU * M_H * 1e3, {}),
+    ("number_density", "density->number_density(mu)", "g/cm**3", "cm**-3", lambda v: v / (2.0 * M_H * 1e3), {"mu": 2.0}),
+    ("schwarzschild", "mass->length", "Msun", "km", lambda v: 2 * G_NEWTON * v * M_SUN / C_LIGHT ** 2 / 1e3, {}),
+    ("schwarzschild", "length->mass", "km", "Msun", lambda v: v * 1e3 * C_LIGHT ** 2 / (2 * G_NEWTON) / M_SUN, {}),
+    ("compton", "mass->length", "me", "pm", lambda v: H_PLANCK / (C_LIGHT * v * M_E) * 1e12, {}),
+    ("compton", "length->mass", "pm", "me", lambda v: H_PLANCK / (C_LIGHT * v * 1e-12) / M_E, {}),
+    ("lorentz", "velocity->dimensionless", "Mm/s", "dimensionless", lambda v: 1 / math.sqrt(1 - (v * 1e6 / C_LIGHT) ** 2), {}),
+    ("lorentz", "dimensionless->velocity", "dimensionless", "km/s", lambda v: C_LIGHT * math.sqrt(1 - 1 / v ** 2) / 1e3, {}),
+    ("sound_speed", "temperature->velocity", "K", "km/s", lambda v: math.sqrt(K_BOLTZ * GAMMA * v / (MU * M_H)) / 1e3, {}),
+    ("sound_speed", "velocity->temperature", "km/s", "K", lambda v: (v * 1e3) ** 2 * MU * M_H / GAMMA / K_BOLTZ, {}),
+    ("sound_speed", "energy->velocity", "keV", "km/s", lambda v: math.sqrt(GAMMA * v * 1e3 * EV / (MU * M_H)) / 1e3, {}),
+    ("sound_speed", "velocity->energy", "km/s", "keV", lambda v: (v * 1e3) ** 2 * MU * M_H / GAMMA / EV / 1e3, {}),
+    ("sound_speed", "temperature->energy", "K", "eV", lambda v: v * K_BOLTZ / EV, {}),
+    ("sound_speed", "energy->temperature", "eV", "K", lambda v: v * EV / K_BOLTZ, {}),
+    ("sound_speed", "velocity->temperature(mu,gamma)", "km/s", "K", lambda v: (v * 1e3) ** 2 * 1.2 * M_H / 1.4 / K_BOLTZ, {"mu": 1.2, "gamma": 1.4}),
+    ("effective_temperature", "temperature->flux", "K", "W/m**2", lambda v: SIGMA_SB * v ** 4, {}),
+    ("effective_temperature", "flux->temperature", "W/m**2", "K", lambda v: (v / SIGMA_SB) ** 0.25, {}),
+]
+# directions whose code raises the data to a power before a float type is involved: (row direction -> power)
+EQ_POWERS = {"velocity->temperature": 2, "velocity->energy": 2, "velocity->temperature(mu,gamma)": 2, "temperature->flux": 4,
+             "dimensionless->velocity": 2}
+EQ_COPY_FORMS = ("to", "to-keyword", "in_units", "to_value", "to_equivalent")
+EQ_INPLACE_FORMS = ("convert_to_units", "convert_to_units-keyword", "convert_to_equivalent")
+L_EQ_WRAP = "copy route: powers of the data are taken in floating point (no integer wrap-around)"
+
+
+def registered_equivalences(mods):
+    return list(mods["UE"].equivalence_registry)
+
+
+def eq_do(q, form, dst, eq, kw):
+    """one call form of one equivalence conversion; in-place forms work on a copy that is returned"""
+    if form == "to":
+        return q.to(dst, eq, **kw)
+    if form == "to-keyword":
+        return q.to(dst, equivalence=eq, **kw)
+    if form == "in_units":
+        return q.in_units(dst, equivalence=eq, **kw)
+    if form == "to_value":
+        return q.to_value(dst, equivalence=eq, **kw)
+    if form == "to_equivalent":
+        return q.to_equivalent(dst, eq, **kw)
+    c = q.copy()
+    if form == "convert_to_units":
+        c.convert_to_units(dst, eq, **kw)
+    elif form == "convert_to_units-keyword":
+        c.convert_to_units(dst, equivalence=eq, **kw)
+    elif form == "convert_to_equivalent":
+        c.convert_to_equivalent(dst, eq, **kw)
+    else:
+        raise KeyError(form)
+    return c
+
+
+def eq_values(dtype, direction):
+    """small values whose images are fractional (truncation shows), and - for directions that take a power - values whose
+    power leaves the integer type"""
+    dtype = DT(dtype)
+    if direction == "dimensionless->velocity":
+        small = [2, 3, 7, 100]  # Lorentz factors
+    elif direction == "velocity->dimensionless":
+        small = [100, 120, 125, 2]  # Mm/s, below c
+    else:
+        small = [2, 3, 7, 100]
+    big = []
+    p = EQ_POWERS.get(direction)
+    if p and dtype.kind in "ui":
+        top = int(np.iinfo(dtype).max)
+        b = int(round(top ** (1.0 / p))) + 2
+        while b ** p <= top:
+            b += 1
+        if b <= top:
+            big = [b, b + 1]
+        # a small value whose power already leaves the type (100**2 in one byte) belongs to the wrap-around obligation
+        big = [v for v in small if v ** p > top] + big
+        small = [v for v in small if v ** p <= top]
+    if dtype.kind == "c":
+        small = [complex(v) for v in small]
+    return small, big
+
+
+def eq_close(g, e, fdt):
+    """g (python float/complex) is the image e up to the band (2e-3, or 16 ulp of float type fdt). A non-finite result in a
+    type narrower than 8 bytes is IEEE range (the constants of the formulas - h, k_B, c**2 - leave float16/float32 in
+    intermediate steps; overflow is outside the claim), and so is a zero in a 2-byte float."""
+    g = complex(g)
+    narrow = np.dtype(fdt).itemsize < 8
+    if not (math.isfinite(g.real) and math.isfinite(g.imag)):
+        return narrow
+    band = max(2e-3, 16 * float(np.finfo(fdt).eps))
+    if abs(g - e) <= band * abs(e):
+        return True
+    return np.dtype(fdt).itemsize == 2 and g == 0
+
+
+def make_equiv_dir_case(row, dt):
+    eq, direction, src, dst, image, kw = row
+    dtype = DT(dt)
+    want = want_float(dtype)
+    one_byte_int = dtype.itemsize == 1 and dtype.kind in "ui"
+
+    def h(ctx):
+        unyt = ctx.mods["unyt"]
+        if eq not in registered_equivalences(ctx.mods):
+            ctx.require("equivalence is registered", False, equivalence=eq)
+            return
+        small, big = eq_values(dtype, direction)
+        for scalar in (False, True):
+            values = small[:1] if scalar else small + big
+            held = held_of(values, dtype)
+            nsmall = 1 if scalar else len(small)
+            results = {}
+            for form in EQ_COPY_FORMS + EQ_INPLACE_FORMS:
+                inplace = form in EQ_INPLACE_FORMS
+                who = "in-place route" if inplace else "copy route"
+                info = dict(equivalence=eq, variant=f"{'scalar' if scalar else 'array'} {src}->{dst} via {form}")
+                q = typed(ctx, values, dtype, src, scalar=scalar)
+                r = run(eq_do, q, form, dst, eq, kw)
+                ctx.observe(info["variant"], r.outcome if r.ok else "raise:" + type(r.value).__name__)
+                if not r.ok:
+                    ctx.require(f"{who}: raises only when no float of the item size exists", inplace and one_byte_int, exc=repr(r.value)[:200], **info)
+                    continue
+                if form == "to_value" and scalar:
+                    ctx.require("to_value of a quantity is a python number", isinstance(r.value, (float, complex)), type=type(r.value).__name__, **info)
+                    ctx.require("copy route: values converted, not truncated", eq_close(r.value, image(complex(held[0]).real), np.dtype("f8")), got=r.value, **info)
+                    continue
+                d = data_of(r.value)
+                kind_ok = d.dtype.kind == ("c" if dtype.kind == "c" else "f")
+                ctx.require(f"{who}: floating point, complex stays complex", kind_ok, dtype=str(d.dtype), **info)
+                ctx.require(f"{who}: float of the input's item size", same_type(d.dtype, want), dtype=str(d.dtype), want=str(want), **info)
+                got = [py(x) for x in d.ravel()]
+                if kind_ok:
+                    fdt = real_float(d.dtype)
+                    exp = [image(complex(v).real) for v in held]
+                    bad = [(v, g) for v, g, e in list(zip(held, got, exp))[:nsmall] if not eq_close(g, e, fdt)]
+                    ctx.require(f"{who}: values converted, not truncated", not bad and len(got) == len(held), bad=bad[:3], **info)
+                    wrapped = [(v, g) for v, g, e in list(zip(held, got, exp))[nsmall:] if not eq_close(g, e, fdt)]
+                    if big and not scalar:
+                        ctx.require(L_EQ_WRAP if not inplace else "in-place route: powers of the data are taken in floating point (no integer wrap-around)",
+                                    not wrapped, bad=wrapped[:3], **info)
+                if form != "to_value":
+                    ctx.require("result carries the target unit", str(r.value.units) == str(unyt.Unit(dst)), unit=str(r.value.units), **info)
+                if not inplace:
+                    ctx.require("input untouched by the copy route", q.dtype == dtype and np.array_equal(
+                        np.asarray(q.d).ravel(), np.array(values, dtype=dtype)) and str(q.units) == str(unyt.Unit(src)), **info)
+                results[form] = (d.dtype, got)
+            # the copying and the in-place forms agree with each other
+            if "to" in results:
+                cd, cg = results["to"]
+                for form in EQ_INPLACE_FORMS:
+                    if form not in results:
+                        continue
+                    idt, ig = results[form]
+                    info = dict(equivalence=eq, variant=f"{'scalar' if scalar else 'array'} {src}->{dst} to vs {form}")
+                    ctx.require("copy and in-place routes agree on dtype", same_type(cd, idt), copy=str(cd), inplace=str(idt), **info)
+                    fdt = min(real_float(cd), real_float(idt), key=lambda t: t.itemsize) if cd.kind in "fc" and idt.kind in "fc" else np.dtype("f8")
+                    same = len(cg) == len(ig) and all(eq_close(b, complex(a), fdt) or eq_close(a, complex(b), fdt)
+                                                      for a, b in list(zip(cg, ig))[:nsmall])
+                    ctx.require("copy and in-place routes agree on values", same, copy=cg[:4], inplace=ig[:4], **info)
+                for form in EQ_COPY_FORMS:
+                    if form in results and form != "to":
+                        fd, fg = results[form]
+                        ctx.require("copy forms agree with each other", fd == cd and len(fg) == len(cg) and all(
+                            same_num(a, b, real_float(cd) if cd.kind in "fc" else np.dtype("f8")) for a, b in zip(fg, cg)),
+                            form=form, equivalence=eq, variant=f"{'scalar' if scalar else 'array'} {src}->{dst}")
+        # ---- symbolic unit scales (copy forms, real typed payload, directions that are one multiply/divide): the target is a
+        # harness unit of the target dimension whose scale is a z3 real; where the direction involves no physical constant (the
+        # constants carry table units, and a product in which a symbolic scale meets a table unit of the same dimension cannot be
+        # cancelled by sympy) the source is a harness unit of symbolic scale too, otherwise the table unit of the row
+        if direction not in EQ_SI or dtype.kind == "c":
+            return
+        si_image = EQ_SI[direction]
+        reg = ctx.registry([])
+        both = direction in EQ_BOTH_SYMBOLIC
+        sb = ctx.real("xb_s", pos=True)
+        ctx.add_row(reg, "xb", unyt.Unit(dst).dimensions, sb)
+        if both:
+            sa = ctx.real("xa_s", pos=True)
+            ctx.add_row(reg, "xa", unyt.Unit(src).dimensions, sa)
+            source = "xa"
+        else:
+            sa, source = EQ_SRC_SI[src], src
+        held = held_of(small, dtype)
+        for form in ("to", "to_equivalent"):
+            q = typed(ctx, small, dtype, source, reg)
+            r = run(eq_do, q, form, "xb", eq, kw)
+            if not r.ok:
+                ctx.require("symbolic scales: equivalence conversion succeeds", False, exc=repr(r.value)[:200], form=form)
+                continue
+            got = elements(data_of(r.value))
+            if symbolic_result(r.value):
+                ok = And(len(got) == len(held), *[close(g * sb, si_image(sa * v), tol=Fraction(2, 1000)) for g, v in zip(got, held)])
+            else:
+                fsa, fsb = float(Fraction(sa)), float(Fraction(sb))
+                ok = len(got) == len(held) and all(eq_close(complex(py(g)) * fsb, si_image(fsa * v), np.dtype("f8")) for g, v in zip(got, held))
+            ctx.require("symbolic scales: values are the equivalence's image for all unit scales", ok, form=form)
+
+    return Case(f"C17/equivalence/{eq}/{direction}/{dt}", h,
+                bounds="enumerated: equivalence, direction, call form, dtype, values; symbolic (multiply/divide directions, copy forms): both unit scales")
+
+
+EQ_BOTH_SYMBOLIC = ("length->spatial_frequency", "spatial_frequency->length")
+EQ_SRC_SI = {"km": 1e3, "nm": 1e-9, "m": 1.0, "K": 1.0, "MHz": 1e6, "THz": 1e12, "GHz": 1e9, "eV": EV, "1/cm": 100.0, "keV": 1e3 * EV, "MK": 1e6,
+             "g": 1e-3, "MeV": 1e6 * EV}  # SI value of one source unit, written here
+# SI images x_SI -> y_SI of the directions that are a single multiply or divide (symbolic-scale pass)
+_MH_KG = M_H
+EQ_SI = {
+    "length->rate": lambda x: C_LIGHT / x, "rate->length": lambda x: C_LIGHT / x,
+    "length->energy": lambda x: H_PLANCK * C_LIGHT / x, "energy->length": lambda x: H_PLANCK * C_LIGHT / x,
+    "length->spatial_frequency": lambda x: 1 / x, "spatial_frequency->length": lambda x: 1 / x,
+    "rate->energy": lambda x: x * H_PLANCK, "energy->rate": lambda x: x / H_PLANCK,
+    "rate->spatial_frequency": lambda x: x / C_LIGHT, "spatial_frequency->rate": lambda x: x * C_LIGHT,
+    "energy->spatial_frequency": lambda x: x / (H_PLANCK * C_LIGHT), "spatial_frequency->energy": lambda x: x * (H_PLANCK * C_LIGHT),
+    "energy->temperature": lambda x: x / K_BOLTZ, "temperature->energy": lambda x: x * K_BOLTZ,
+    "mass->energy": lambda x: x * C_LIGHT ** 2, "energy->mass": lambda x: x / C_LIGHT ** 2,
+}
+
+
+# ----------------------------------------------------------------------------------------------- operand container forms
+#
+# "Combining integer-typed data in different commensurable units" does not need two arrays: an operand of a binary ufunc, and the
+# argument of the constructor, may be a python list or tuple of quantities (or of arrays) in DIFFERENT units; the library converts
+# the elements to the first element's unit before the ufunc sees them. That coercion is a conversion route of its own.
+
+SEQ_FORMS = ("list-first", "list-second", "tuple-first", "tuple-second", "operator-list-right", "operator-list-left",
+             "constructor-list", "constructor-tuple", "constructor-list-of-arrays", "list-of-arrays-second")
+EQ_DTYPES_QUICK = ["int8", "uint16", "int32", "int64", "uint64", "float16", "float32", "complex64", "longlong"]
+SEQ_DTYPES_QUICK = ["int8", "int16", "int32", "uint32", "int64", "uint64", "float32", "longlong", "int32-swapped"]
+SEQ_UNITS = {"length": (("km", "m", "m"), Fraction(1, 1000)), "em": (("A", "mA", "mA"), Fraction(1, 1000)),
+             "cgs-length": (("m", "cm", "cm"), Fraction(1, 100))}
+
+
+def seq_elements(dtype):
+    """held numbers of the three elements (first unit, second unit, second unit): the converted ones are fractional"""
+    return [1, 50, 25] if DT(dtype).itemsize == 1 else [1, 500, 250]
+
+
+def make_sequence_case(op, form, family, dt):
+    dtype = DT(dt)
+    want = want_float(dtype)
+    units, K = SEQ_UNITS[family]
+    u0 = units[0]
+
+    def h(ctx):
+        unyt = ctx.mods["unyt"]
+        uf = getattr(np, op) if op != "construct" else None
+        es = seq_elements(dtype)
+        of_arrays = "of-arrays" in form
+        if of_arrays:
+            elems = [typed(ctx, [e, e + 2], dtype, u) for e, u in zip(es, units)]
+            conv = [[Fraction(e) * (1 if i == 0 else K), Fraction(e + 2) * (1 if i == 0 else K)] for i, e in enumerate(es)]
+            flat = [c for row in conv for c in row]
+            partner_vals = [[2, 2], [2, 2], [2, 2]]
+        else:
+            elems = [typed(ctx, [e], dtype, u, scalar=True) for e, u in zip(es, units)]
+            flat = [Fraction(e) * (1 if i == 0 else K) for i, e in enumerate(es)]
+            partner_vals = [2, 2, 2]
+        seq = tuple(elems) if "tuple" in form else list(elems)
+        before = [py(x) for e in elems for x in np.asarray(e.d).ravel()]
+        partner = unyt.unyt_array(np.array(partner_vals, dtype=dtype), u0)
+        pflat = [Fraction(2)] * len(flat)
+        if form.startswith("constructor"):
+            r = run(unyt.unyt_array, seq)
+            xs, ys = flat, None
+        elif form == "operator-list-right":
+            r = run(operator.add if op == "add" else operator.sub if op == "subtract" else operator.lt, partner, seq)
+            xs, ys = pflat, flat
+        elif form == "operator-list-left":
+            r = run(operator.add if op == "add" else operator.sub if op == "subtract" else operator.lt, seq, partner)
+            xs, ys = flat, pflat
+        elif form.endswith("first"):
+            r = run(uf, seq, partner)
+            xs, ys = flat, pflat
+        else:
+            r = run(uf, partner, seq)
+            xs, ys = pflat, flat
+        ctx.observe("outcome", r.outcome if r.ok else "raise:" + type(r.value).__name__)
+        if not r.ok:
+            ctx.require("raises only when no float of the item size exists", False, exc=repr(r.value)[:200])
+            return
+        d = data_of(r.value)
+        ctx.observe("dtype", str(d.dtype))
+        got = [py(x) for x in d.ravel()]
+        if ys is None:
+            exp = xs
+        else:
+            exp = [oracle(op, x, y) for x, y in zip(xs, ys)]
+        if op in COMPARE:
+            ctx.require("comparison result is boolean", d.dtype.kind == "b", dtype=str(d.dtype))
+            ctx.require("comparison decided on converted values", got == exp, got=got, want=exp)
+        else:
+            ctx.require("result is floating point, not integer", d.dtype.kind == "f", dtype=str(d.dtype))
+            ctx.require("result not narrower than the converted elements", d.dtype.kind == "f" and d.dtype.itemsize >= want.itemsize,
+                        dtype=str(d.dtype), converted=str(want))
+            if ys is None:
+                ctx.require("constructor: float of the elements' item size", same_type(d.dtype, want), dtype=str(d.dtype), want=str(want))
+            if d.dtype.kind == "f":
+                fdt = narrowest(dtype, d.dtype)
+                ok = len(got) == len(exp) and all(vclose(g, e, fdt, band=float(abs(x) + abs(y if ys is not None else 0)))
+                                                  for g, e, x, y in zip(got, exp, xs, ys or xs))
+                ctx.require("values combined on converted elements, not truncated", ok, got=got, want=[float(e) for e in exp])
+            ctx.require("result carries the first operand's unit", str(r.value.units) == str(unyt.Unit(u0)), unit=str(r.value.units))
+        ctx.require("elements untouched", all(np.asarray(e.d).dtype == dtype for e in elems)
+                    and [py(x) for e in elems for x in np.asarray(e.d).ravel()] == before
+                    and [str(e.units) for e in elems] == [str(unyt.Unit(u)) for u in units])
+        # ---- symbolic unit scales: elements in two harness units; for all scales the coerced operand is v*s_elem/s_first
+        if dtype.kind not in "uif" or of_arrays or family != "length" or op in COMPARE:
+            return
+        reg, sa, sb = sym_pair(ctx)
+        hu = ("xa", "xb", "xb")
+        elems = [typed(ctx, [e], dtype, u, reg, scalar=True) for e, u in zip(es, hu)]
+        seq = tuple(elems) if "tuple" in form else list(elems)
+        partner = unyt.unyt_array(np.array([2, 2, 2], dtype=dtype), "xa", registry=reg)
+        if form.startswith("constructor"):
+            r = run(unyt.unyt_array, seq, registry=reg)
+        elif form == "operator-list-right":
+            r = run(operator.add if op == "add" else operator.sub, partner, seq)
+        elif form == "operator-list-left":
+            r = run(operator.add if op == "add" else operator.sub, seq, partner)
+        elif form.endswith("first"):
+            r = run(uf, seq, partner)
+        else:
+            r = run(uf, partner, seq)
+        if not r.ok:
+            ctx.require("symbolic scales: coercion of the sequence succeeds", False, exc=repr(r.value)[:200])
+            return
+        got = elements(data_of(r.value))
+        held = held_of(es, dtype)
+        scales = (sa, sb, sb)
+        t = sym_tol(dtype)
+        if form.startswith("constructor"):
+            terms = [(0, 0, v, s) for v, s in zip(held, scales)]
+        elif form.endswith("first") or form == "operator-list-left":
+            sign = 1 if op == "add" else -1
+            terms = [(sign * 2, sa, v, s) for v, s in zip(held, scales)]  # seq op partner: v*s + sign*2*sa
+        else:
+            sign = 1 if op == "add" else -1
+            terms = [(2, sa, sign * v, s) for v, s in zip(held, scales)]
+        if symbolic_result(r.value):
+            ok = And(len(got) == len(terms), *[close(g * sa, p * ps + v * s, extra=(abs(p * ps) + abs(v * s)) * float(t), tol=t) for g, (p, ps, v, s) in zip(got, terms)])
+        else:
+            fa = Fraction(sa)
+            ok = len(got) == len(terms) and all(
+                vclose(py(g), (Fraction(p) * Fraction(ps) + Fraction(v) * Fraction(s)) / fa, narrowest(dtype),
+                       band=float((abs(Fraction(p) * Fraction(ps)) + abs(Fraction(v) * Fraction(s))) / fa)) for g, (p, ps, v, s) in zip(got, terms))
+        ctx.require("symbolic scales: elements are converted to the first element's unit for all scales", ok)
+
+    return Case(f"C17/sequence/{op}/{form}/{family}/{dt}", h,
+                bounds="enumerated: container form, operand position, ufunc, unit family, dtype; symbolic (length family): the two unit scales")
 
 
 # ----------------------------------------------------------------------------------------------- mixed-unit binary ufuncs
@@ -1958,6 +2376,30 @@ def cases(tier, mods):
             out.append(make_route_case(route, dt))
     for dt in EVERY_DTYPE:
         out.append(make_equiv_case(dt))
+    # every registered equivalence x every direction x call form (see EQ_ROWS); an equivalence the table has no row for is an error
+    listed = {row[0] for row in EQ_ROWS}
+    for name in registered_equivalences(mods):
+        if name not in listed:
+            return [_broken(f"C17: equivalence '{name}' is registered in unyt.equivalencies but has no direction rows in EQ_ROWS")]
+    eq_dts = EQ_DTYPES_QUICK if tier == "quick" else EVERY_DTYPE
+    for row in EQ_ROWS:
+        for dt in eq_dts:
+            out.append(make_equiv_dir_case(row, dt))
+    # operand container forms: python sequences of quantities in different units as ufunc operand / constructor argument
+    seq_dts = SEQ_DTYPES_QUICK if tier == "quick" else INT_DTYPES + FLOAT_DTYPES + VARIANT_INT
+    for form in SEQ_FORMS:
+        if form.startswith("constructor"):
+            seq_ops = ["construct"]
+        elif tier == "quick":
+            seq_ops = ["add", "less"] if form in ("list-first", "list-second") else ["add"]
+        else:
+            seq_ops = ["add", "subtract", "less"] + (["maximum", "floor_divide"] if not form.startswith("operator") else [])
+        for op in seq_ops:
+            for family in SEQ_UNITS:
+                if tier == "quick" and family != "length" and form not in ("list-first", "list-second", "constructor-list"):
+                    continue
+                for dt in seq_dts:
+                    out.append(make_sequence_case(op, form, family, dt))
     # unit family x unit system x call form (see NAMED_ROWS / BASE_ROWS)
     unit_dts = UNITS_DTYPES_QUICK if tier == "quick" else EVERY_DTYPE
     for form in NAMED_FORMS:
